@@ -94,6 +94,7 @@ bool build_check(const std::string& prop, const std::string& tier, CheckSpec& s,
         s.rule = "case = (primitive op, output aliases first operand?, returned carry/borrow flag) for the register machine; for system histories the cases of the scenario run in lock-step; distinct by that tuple; every case executes on all five replicas with identical inputs and the logs (all written registers, flags, marshalled bytes, stream consumption) must be identical";
         s.batches.push_back(mk("prim", q ? 1200 : 30000, ALLGARM, "crossrep", {{"ops", q ? 400 : 600}}, "layer 1: register machine over BigInt<384/768/256/512> and FpBase<384/256> primitives with boundary pair constructors, results feeding later ops"));
         s.batches.push_back(mk("prim", q ? 400 : 15000, ALLGARM, "crossrep", {{"ops", q ? 300 : 500}, {"unreduced", 1}}, "layer 1 with operands that are not reduced below the modulus also fed to modular add / subtract / double / negate (the property quantifies over all 384-bit operand pairs)"));
+        s.batches.push_back(mk("prim", q ? 300 : 12000, ALLGARM, "crossrep", {{"ops", q ? 300 : 500}, {"unreduced", 1}, {"entry", 1}}, "layer 1 with the x86-64 assembly routines entered directly with the carry and overflow flags set/clear in all four combinations and junk in the caller-saved registers (the ABI leaves them undefined at a call); callee-saved registers and the direction flag checked on return"));
         s.batches.push_back(mk("wkd", q ? 80 : 3000, ALLG, "crossrep", {{"maxops", 14}}, "layer 2: WKD-IBE histories in lock-step on all replicas, same random stream"));
         s.batches.push_back(mk("lq", q ? 60 : 2000, ALLG, "crossrep", {}, "layer 2: LQ-IBE histories"));
         s.batches.push_back(mk("sample", q ? 80 : 3000, ALLG, "crossrep", {}, "layer 2: samplers, hashing, GT exponentiation (rejection decisions must agree)"));
